@@ -1705,8 +1705,12 @@ where
                     packet.topic_name(),
                     ta
                 );
-                if let Some(ref mut topic_alias_send) = self.topic_alias_send {
-                    topic_alias_send.insert_or_update(packet.topic_name(), ta);
+                // The binding is only recorded when the packet really goes out with it: a PUBLISH
+                // that is merely stored (handshake still running) is re-sent later without its alias
+                if self.status == ConnectionStatus::Connected {
+                    if let Some(ref mut topic_alias_send) = self.topic_alias_send {
+                        topic_alias_send.insert_or_update(packet.topic_name(), ta);
+                    }
                 }
             } else {
                 events.push(GenericEvent::NotifyError(MqttError::PacketNotAllowedToSend));
